@@ -107,9 +107,11 @@ pub fn new_vm(s: &Settings) -> RootedThread {
 
 /// Classifies an error text into the failure classes of the model
 pub fn error_class(msg: &str) -> &'static str {
-    if msg.contains("Arithmetic overflow") || msg.contains("overflow") && msg.contains("rithmetic") {
+    if msg.starts_with("boom") {
+        "explicit"
+    } else if msg.contains("Arithmetic overflow") {
         "arith"
-    } else if msg.contains("Non-exhaustive pattern") || msg.contains("Unmatched") || msg.contains("unmatched") {
+    } else if msg.contains("Unmatched pattern") {
         "nomatch"
     } else if msg.contains("out of range") || msg.contains("out of bounds") {
         "index"
@@ -170,4 +172,8 @@ pub fn serve<F: FnMut(&serde_json::Value) -> serde_json::Value>(mut f: F) {
         writeln!(o, "{}", r).unwrap();
         o.flush().unwrap();
     }
+}
+
+thread_local! {
+    pub static LAST_PANIC_LOC: std::cell::RefCell<String> = std::cell::RefCell::new(String::new());
 }
